@@ -51,8 +51,11 @@ Theorem C14_marker_table : forall g l, g <> GNoOp -> infix g l = render_marker (
 Proof. intros g l H; destruct g; try congruence; destruct l; reflexivity. Qed.
 
 (* directory part and final component intact, exactly the marker between them *)
+(* ([valid_str]: the caller's path is a Rust str - a list of Unicode scalar values; see C14_no_panic below.
+   With tr = true the trailing '/' of the input is DROPPED: "a/b/" localizes to "a/<marker>b" - with no marker
+   to "a/b", which is not the input: [C14_example_trailing_slash].) *)
 Theorem C14_localize_spec : forall g l dir name tr,
-  g <> GNoOp -> dir <> [] -> Forall plainP (dir ++ [name]) ->
+  g <> GNoOp -> dir <> [] -> Forall plainP (dir ++ [name]) -> valid_str (render (dir ++ [name]) tr) = true ->
   localize g l (render (dir ++ [name]) tr) =
     match spec_marker g l with
     | Unsupported => LErr LUnsupportedLanguage
@@ -61,17 +64,17 @@ Theorem C14_localize_spec : forall g l dir name tr,
     | PrefixM m => LOk (join dir ++ [SLASH] ++ m ++ name)
     end.
 Proof.
-  intros g l dir name tr Hg Hd Hp.
+  intros g l dir name tr Hg Hd Hp Hv.
   assert (E : localize g l (render (dir ++ [name]) tr) =
               match infix g l with None => LErr LUnsupportedLanguage | Some m => LOk (join dir ++ m ++ name) end).
-  { unfold localize. rewrite (parent_and_file_multi dir name tr Hd Hp). destruct g; congruence. }
+  { unfold localize. rewrite (parent_and_file_multi dir name tr Hd Hp Hv). destruct g; congruence. }
   rewrite E, (C14_marker_table g l Hg). destruct (spec_marker g l); cbn [render_marker app]; try reflexivity.
   rewrite <- app_assoc. reflexivity.
 Qed.
 
 (* a single component is treated as a directory: the marker is appended *)
 Theorem C14_single_component : forall g l c tr,
-  g <> GNoOp -> plainP c ->
+  g <> GNoOp -> plainP c -> valid_str (render [c] tr) = true ->
   localize g l (render [c] tr) =
     match spec_marker g l with
     | Unsupported => LErr LUnsupportedLanguage
@@ -80,18 +83,59 @@ Theorem C14_single_component : forall g l c tr,
     | PrefixM m => LOk (c ++ [SLASH] ++ m)
     end.
 Proof.
-  intros g l c tr Hg Hc.
+  intros g l c tr Hg Hc Hv.
   assert (E : localize g l (render [c] tr) =
               match infix g l with None => LErr LUnsupportedLanguage | Some m => LOk (c ++ m ++ []) end).
-  { unfold localize. rewrite (parent_and_file_single c tr Hc). destruct g; congruence. }
+  { unfold localize. rewrite (parent_and_file_single c tr Hc Hv). destruct g; congruence. }
   rewrite E, (C14_marker_table g l Hg). destruct (spec_marker g l); cbn [render_marker app]; rewrite ?app_nil_r; reflexivity.
 Qed.
 
-(* paths without a final component are errors (whatever the language) *)
+(* paths without a final component are errors, with these values, whatever the language: the path error wins over
+   UnsupportedLanguage (the `?` on get_parent_and_file_name comes before the language match), and MissingParent over
+   MissingFileName (get_parent_as_string is called first) *)
 Theorem C14_degenerate : forall g l, g <> GNoOp ->
-  (exists e, localize g l [] = LErr e) /\ (exists e, localize g l [SLASH] = LErr e) /\
-  (exists e, localize g l [DOT; DOT] = LErr e) /\ (exists e, localize g l [DOT] = LErr e).
-Proof. intros g l H; destruct g; try congruence; repeat split; eexists; reflexivity. Qed.
+  localize g l [] = LErr LMissingParent /\ localize g l [SLASH] = LErr LMissingParent /\
+  localize g l [DOT; DOT] = LErr LMissingFileName /\ localize g l [DOT] = LErr LMissingFileName.
+Proof. intros g l H; destruct g; try congruence; repeat split; reflexivity. Qed.
+
+(* ---- "the function never panics" (review r4, C14-1).  The only panic sites of src/localization.rs are the two
+   `value.to_str().unwrap()` (lines 10, 18); the model carries them as the outcome LPanic, reached exactly when OsStr::to_str
+   ([os_to_str]) fails on the slice Path::parent / Path::file_name returned.
+   (a) the general argument, for EVERY string, also outside the modelled path shapes: whatever sub-slice of the caller's str
+       reaches an unwrap site, to_str succeeds (assumption A-fs: the slices are cut next to '/' bytes of a UTF-8 string, i.e.
+       they are sub-lists of the scalar-value list);
+   (b) the model's Path::parent / Path::file_name do return sub-slices of the caller's string;
+   (c) hence localize never returns LPanic on a str, for all 6 localizers x 8 languages x all strings; the result is Ok of a
+       str, an error, or "outside the modelled path shapes" ([classify] = SOther: there the VALUE is only tested, the absence
+       of a panic rests on (a)).  The file-system operations inherit it through fs_actual. ---- *)
+Theorem C14_unwrap_sites_never_fail : forall p v,
+  valid_str p = true -> (exists a b, p = a ++ v ++ b) -> os_to_str v = Some v.
+Proof. exact (fun p v H Hs => os_to_str_substring v p H Hs). Qed.
+Theorem C14_model_slices_are_substrings : forall p v,
+  (path_parent p = QSome v -> exists a b, p = a ++ v ++ b) /\ (path_file_name p = QSome v -> exists a b, p = a ++ v ++ b).
+Proof. intros p v. split; [exact (path_parent_substring p v) | exact (path_file_name_substring p v)]. Qed.
+Theorem C14_no_panic : forall g l p, valid_str p = true -> localize g l p <> LPanic.
+Proof. exact localize_no_panic. Qed.
+Theorem C14_total : forall g l p, valid_str p = true ->
+  match localize g l p with
+  | LOk r => valid_str r = true
+  | LErr _ => True
+  | LUnmodelled => classify p = SOther
+  | LPanic => False
+  end.
+Proof. exact localize_total. Qed.
+(* what a str is: no surrogates, below 0x110000 *)
+Theorem C14_valid_str_is : forall p, valid_str p = true <-> forall c, In c p -> c < 55296 \/ (57343 < c /\ c < 1114112).
+Proof.
+  intros p. unfold valid_str. rewrite forallb_forall. split; intros H c Hc; specialize (H c Hc); unfold scalar in *.
+  - apply orb_true_iff in H. destruct H as [H|H]; [left; apply N.ltb_lt; exact H|].
+    apply andb_true_iff in H. destruct H as (H1 & H2). right. split; apply N.ltb_lt; assumption.
+  - apply orb_true_iff. destruct H as [H|(H1 & H2)]; [left; apply N.ltb_lt; exact H|].
+    right. apply andb_true_iff. split; apply N.ltb_lt; assumption.
+Qed.
+(* the panic outcome of the model is reachable only through a string that is not a str: a lone surrogate in the parent *)
+Example C14_panic_needs_invalid : valid_str [55296; 47; 97] = false /\ localize GFE13 EnglishNA [55296; 47; 97] = LPanic.
+Proof. vm_compute. split; reflexivity. Qed.
 
 Theorem C14_noop_identity : forall l p, localize GNoOp l p = LOk p.
 Proof. reflexivity. Qed.
@@ -102,6 +146,15 @@ Example C14_example :
   /\ localize GFE13 EnglishNA [32;47;120] = LOk [32;47;69;47;120]
   /\ plainP [109] /\ plainP [32].
 Proof. vm_compute. repeat split; try congruence; intros [H|[]]; discriminate. Qed.
+(* the trailing '/' of the input is dropped ("and nothing else" is slightly violated by the code): "a/b/" -> "a/E/b" for
+   FE13 English, and for FE13 Japanese (no marker) "a/b/" -> "a/b", not the input; a single component "x.lz" is treated as a
+   directory: "x.lz/E/"; multi-byte characters next to the '/' (U+65E5 U+672C) are cut correctly *)
+Example C14_example_trailing_slash :
+  localize GFE13 EnglishNA [97;47;98;47] = LOk [97;47;69;47;98]
+  /\ localize GFE13 Japanese [97;47;98;47] = LOk [97;47;98]
+  /\ localize GFE13 EnglishNA [120;46;108;122] = LOk [120;46;108;122;47;69;47]
+  /\ localize GFE15 Japanese [26085;47;26412] = LOk [26085;47;64;74;47;26412].
+Proof. vm_compute. repeat split. Qed.
 
 (* ---------------------------------------------------------------- C14 (file-system half) *)
 (* all filesystem operations apply the same mapping: a localized call addresses localize p.  read and write
@@ -138,14 +191,37 @@ Theorem C14_fs_localisation_error : forall S p e compress decompress b pat,
   fs_write compress S p b true = (S, FErr (ELocalization e)) /\
   fs_create_dir S p true = (S, FErr (ELocalization e)) /\
   fs_exists S p true = FErr (ELocalization e) /\
+  fs_file_exists S p true = FErr (ELocalization e) /\
+  fs_directory_exists S p true = FErr (ELocalization e) /\
   fs_list S p pat true = FErr (ELocalization e) /\
+  fs_subdirectories S p true = FErr (ELocalization e) /\
   fs_resolve S p true = FOk None.
 Proof.
   intros S p e c d b pat H.
-  unfold fs_read, fs_write, fs_create_dir, fs_exists, fs_list, fs_resolve, fs_addr, fs_actual. rewrite H. repeat split.
+  unfold fs_read, fs_write, fs_create_dir, fs_exists, fs_file_exists, fs_directory_exists, fs_list, fs_subdirectories,
+    fs_resolve, fs_addr, fs_actual. rewrite H. repeat split.
+Qed.
+(* ... and no file-system operation panics in the localizer: a localized call on a str never takes the FPanic PUnwrap arm *)
+Theorem C14_fs_no_panic : forall S p, valid_str p = true -> fs_actual S p true <> FPanic PUnwrap /\ fs_actual S p false = FOk p.
+Proof.
+  intros S p H. split; [|reflexivity]. unfold fs_actual. pose proof (C14_no_panic (c_loc (conf S)) (lng S) p H) as NP.
+  destruct (localize (c_loc (conf S)) (lng S) p); congruence.
 Qed.
 
 (* non-vacuity of the file-system half: the example file system of Properties/C13.v *)
 Definition ex14_fs : fsys := mkFs [[([[100]], Dir); ([[100]; [97]], File [1])]] (mkConfig LZ13 GFE13 LE Unicode) EnglishNA.
 Example C14_fs_example : localize (c_loc (conf ex14_fs)) (lng ex14_fs) [100; 47; 97] = LOk [100; 47; 69; 47; 97].
 Proof. vm_compute. reflexivity. Qed.
+(* the codec is chosen by the CALLER's name (C14_fs_consistent's side condition is necessary): FE13 / EnglishNA, toy codec
+   "prepend 19".  write("d/z.lz", [7;8], localized) stores [19;7;8] at d/E/z.lz; read("d/z.lz", localized) returns [7;8];
+   read("d/z.lz/", localized) addresses the SAME file ("d/z.lz/" localizes to "d/E/z.lz") but the name does not end in
+   ".lz", so it returns the RAW stored bytes [19;7;8] (the real library behaves the same: review r4, C14-3) *)
+Definition ex14_comp (f : cfmt) (b : bytes) : outcome bytes := Ok (19 :: b).
+Definition ex14_decomp (f : cfmt) (b : bytes) : outcome bytes := match b with 19 :: r => Ok r | _ => Err EInvalidInput end.
+Example C14_fs_example_trailing_slash_raw :
+  let '(S', r) := fs_write ex14_comp ex14_fs [100; 47; 122; 46; 108; 122] [7; 8] true in
+  r = FOk tt /\ l_get (last (layers S') []) [[100]; [69]; [122; 46; 108; 122]] = Some (File [19; 7; 8]) /\
+  fs_read ex14_decomp S' [100; 47; 122; 46; 108; 122] true = FOk [7; 8] /\
+  fs_read ex14_decomp S' [100; 47; 122; 46; 108; 122; 47] true = FOk [19; 7; 8] /\
+  fs_addr S' [100; 47; 122; 46; 108; 122; 47] true = fs_addr S' [100; 47; 122; 46; 108; 122] true.
+Proof. vm_compute. repeat split. Qed.
